@@ -112,6 +112,8 @@ def classify(cfg, ref_cfg, sess, what):
     d = [x for x in d if x != 'naggr']
     if d == ['np'] or not d:
         return 'nprocs=%d:%s' % (cfg['np'], what)
+    if 'move_unit' in d and all(x in ('np', 'move_unit') for x in d):
+        return 'move_unit=%s:nprocs=%d:%s' % (cfg['move_unit'], cfg['np'], what)
     d2 = [x for x in d if x != 'np']
     if len(d2) == 1:
         v = cfg[d2[0]]
@@ -139,15 +141,22 @@ def attribute(impl, wd, p, cfg, ref_cfg, ref_ob, what, pi, j):
 
 
 # ---------------------------------------------------------------------------------- 1. differential
-def differential(ctx, impl, wd, stats, nprog, nextra, layout_cases):
+def differential(ctx, impl, wd, stats, nprog, nextra, layout_cases, nredef=0, thorough=False):
     rng = ctx.rng.fork('diff')
     progs = []
     for i in range(nprog):
         prng = rng.fork('p%d' % i)
-        # three out of four programs avoid... nothing is avoided: the generator draws from the whole fragment
         p = G.gen_program(prng)
         cfgs = G.config_set(prng, nextra)
         progs.append((i, p, cfgs, prng))
+    # the redefinition family: data written, redef, header / fixed section grows, enddef moves the
+    # data sections (rank counts 1..4, thorough 1..8, x PNETCDF_VERIF_MOVE_UNIT)
+    rrng = ctx.rng.fork('redef')
+    for i in range(nredef):
+        prng = rrng.fork('r%d' % i)
+        p = G.gen_redef_program(prng)
+        cfgs = G.redef_config_set(prng, thorough)
+        progs.append((nprog + i, p, cfgs, prng))
     items, meta = [], []
     for (i, p, cfgs, prng) in progs:
         for j, cfg in enumerate(cfgs):
@@ -192,7 +201,9 @@ def differential(ctx, impl, wd, stats, nprog, nextra, layout_cases):
             ctx.count('%s || %s' % (G.cfg_repr(cfg), sess.text()), nontrivial=(ob is not None and len(ob['rc']) >= 3))
             # layout and reported hints against the model
             if ob is not None and 'inq0' in ob['layout']:
-                layout_cases.append((p, cfg, ob['layout']['inq0'], ob['layout'].get('inq2'), sess))
+                layout_cases.append((p, cfg, ob['layout']['inq0'], ob['layout'].get('inq2'), sess, ob['layout'].get('inqR')))
+            if getattr(p, 'redef', False):
+                stats['redef_runs'] = stats.get('redef_runs', 0) + 1
         ref_ob, ref_fails = obs[0][2], obs[0][3]
         if ref_fails or ref_ob is None:
             # the reference run (1 rank, all defaults) itself violates the specification oracle:
@@ -247,13 +258,15 @@ def model_layout_check(ctx, wd, stats, layout_cases, proof_ok):
     alignment (Config.reported_after_enddef), by vm_compute"""
     body = ''
     uniq = {}
-    for (p, cfg, lay0, lay2, sess) in layout_cases:
+    for (p, cfg, lay0, lay2, sess, layR) in layout_cases:
         k = (id(p), json.dumps({d: cfg.get(d) for d in ('via', 'h_align', 'v_align', 'r_align', 'ea')}, sort_keys=True))
         if k not in uniq:
             uniq[k] = len(uniq)
             # only the alignment part matters for the layout (that is the theorem); the model is
             # nevertheless evaluated with the full configuration of one representative run
             body += G.coq_enddef_case(uniq[k], p, cfg)
+            if getattr(p, 'redef', False):
+                body += G.coq_redef_case(500000 + uniq[k], p, cfg)
     if not uniq:
         return
     res, out, rc = coq_eval(wd, body, 'layout')
@@ -261,17 +274,25 @@ def model_layout_check(ctx, wd, stats, layout_cases, proof_ok):
         ctx.violation('corr_C10_layout: the model cases do not compile', dict(log=out[-2000:]), no_input=True)
         return
     bad = []
-    for (p, cfg, lay0, lay2, sess) in layout_cases:
+    for (p, cfg, lay0, lay2, sess, layR) in layout_cases:
         k = (id(p), json.dumps({d: cfg.get(d) for d in ('via', 'h_align', 'v_align', 'r_align', 'ea')}, sort_keys=True))
         v = res.get(uniq[k])
         stats['layout_checked'] += 1
         if v is None:
             bad.append((cfg, sess, 'model produced nothing')); continue
         nums_open, nums_end, lay = v
-        for lab, L in (('after enddef', lay0), ('after re-open', lay2)):
+        checks = [('after enddef', lay0, lay), ('after re-open', lay2, lay)]
+        if getattr(p, 'redef', False):
+            # after the redefinition: NC_begins with the old header (offsets never shrink)
+            vr = res.get(500000 + uniq[k])
+            if vr is None:
+                bad.append((cfg, sess, 'model produced nothing for the redefinition')); continue
+            checks = [('after enddef', lay0, vr[0]), ('after redef+enddef', layR, vr[1]), ('after re-open', lay2, vr[1])]
+            stats['redef_layout_checked'] = stats.get('redef_layout_checked', 0) + 1
+        for lab, L, lay in checks:
             if L is None:
                 continue
-            want = [L['hsize'], L['hext'] if p.s.vars else L['hsize'], None, L['recsize']] + L['offs']
+            want = [L['hsize'], L['hext'], None, L['recsize']] + L['offs']
             got = list(lay)
             if got == [-1]:
                 bad.append((cfg, sess, 'model: enddef fails, library: succeeds')); break
@@ -713,17 +734,19 @@ def run(ctx):
     stats = dict(runs=0, pairs_compared=0, oracle_failures=0, nprocs={}, dims={}, aggr_active_runs=0,
                  layout_checked=0, layout_mismatches=0, info_cases=0, info_mismatches=0, aggr_cases=0)
     layout_cases = []
-    progs = differential(ctx, impl, wd, stats, nprog=(110 if thorough else 24), nextra=(4 if thorough else 1),
-                         layout_cases=layout_cases)
+    progs = differential(ctx, impl, wd, stats, nprog=(100 if thorough else 15), nextra=(4 if thorough else 1),
+                         layout_cases=layout_cases, nredef=(36 if thorough else 8), thorough=thorough)
     model_layout_check(ctx, wd, stats, layout_cases, proof_ok)
-    info_cases(ctx, info_exe, wd, stats, n=(150 if thorough else 24))
-    aggr_cases(ctx, impl, wd, stats, n=(120 if thorough else 14))
+    info_cases(ctx, info_exe, wd, stats, n=(150 if thorough else 16))
+    aggr_cases(ctx, impl, wd, stats, n=(120 if thorough else 12))
     sanitizer_cases(ctx, wd, stats, thorough)
     ctx.cov['rule'] = ('logical programs (schema + attributes + 5..12 steps: disjoint logical puts incl. interleaved twins, gets, '
                        'invalid requests, lookups; half of them with a >4096-byte variable) laid out for the rank count and '
                        'decomposition of each configuration; configurations: reference, rank-count baselines, aggregation variants, '
                        'single-dimension variants, PNETCDF_HINTS form, random combinations; non-trivial = a run whose accesses were '
-                       'executed and compared (>= 3 logical accesses); plus c10_info cases (odd hint strings), aggregation model '
+                       'executed and compared (>= 3 logical accesses); plus the redefinition family (every variable written, redef, '
+                       'large attribute / new fixed or record variable / h_minfree, enddef moves the data, everything read back) under '
+                       '1..4 (thorough 1..8) ranks x PNETCDF_VERIF_MOVE_UNIT in {unset, 8, 16, 100}; plus c10_info cases (odd hint strings), aggregation model '
                        'cases and sanitizer runs')
     stats['programs'] = len(progs)
     stats['transient_harness_failures'] = TRANSIENT[:10]
